@@ -98,6 +98,8 @@ FAMILIES["op_chain:call_attr_sub_mixed"] = lambda n: ("class A:\n    def __call_
                                                       + ".a()[0]" * n + ") is a\n")
 FAMILIES["op_chain:star_unpack_nest"] = lambda n: "RESULT = " + "[*" * n + "[1]" + "]" * n + "\n"
 OP_CHAINS = tuple(k for k in FAMILIES if k.startswith("op_chain:"))
+# integer literals of N hex digits (the int-to-str limit is 4300 DECIMAL digits; hex has none in the source)
+FAMILIES["hex_int_literal"] = lambda n: "RESULT = (0x" + "f" * n + " % 1000007, 0x1" + "0" * n + " % 999983)\n"
 
 NESTING = ("nest_if", "nest_for", "nest_while", "nest_mixed", "nest_def", "nest_lambda", "nest_comp",
            "nest_parens_tuple", "nest_ifexp", "binop_right", "op_chain:star_unpack_nest")
